@@ -146,6 +146,14 @@ META["C14"] = {
             "immediates, offsets and the forms the ISA table knows.",
     "technique": "static analysis: MIR string-shape recovery, constant folding of table functions, collection provenance, symbolic machine encodability checks",
 }
+META["C20"] = {
+    "level": "Abstract interpretation of the C print primitives over the full 64-bit range (all i64 values at once, where tests sample "
+             "boundaries), structural checks of the driver template and its instantiation, and the folded argument shuffles for all "
+             "supported parameter counts. Found and repaired: INT64_MIN negation overflow, atoi truncation.",
+    "design_ref": "DESIGN.md §4 C20 (R-CINT, R-NEEDLE, R-ARG64, R-ARGC, R-ARGMOV, R-RET)",
+    "note": "Partial: decimal correctness is decided up to digit range/count/contiguity; the C library and OS are trusted.",
+    "technique": "static analysis: interval abstract interpretation over clang's JSON AST, template/needle counting, folded emission lists on the symbolic machine",
+}
 
 NOT_APPLICABLE = {
     "C09": "Run-time heap invariant of *generated* code at every statement boundary of every execution; no path property of the "
@@ -155,5 +163,5 @@ NOT_APPLICABLE = {
 }
 # properties whose checks are not built yet are listed here until their rules exist (kept current by bin/gen-manifest)
 PENDING = "check not built yet in this round; planned rules are in DESIGN.md §4"
-for _p in ["C15", "C16", "C20"]:
+for _p in ["C15", "C16"]:
     NOT_APPLICABLE.setdefault(_p, PENDING)
